@@ -4388,6 +4388,16 @@ Example any_refuted_tag_zero :
   /\ decode BER (Some TAny) [36; 128; 4; 1; 7; 0; 0; 5] = Ok (DV TAny (VAny [36; 128; 4; 1; 7; 0; 0]), [5]).
 Proof. vm_compute. repeat split. Qed.
 
+(* outside the fragment, and a defect candidate: an untagged ANY as alternative of an untagged CHOICE loses its
+   identifier and length octets (the decoder re-enters with the marked position moved past the header);
+   as a SET member or after an OPTIONAL component the same ANY is decoded whole *)
+Example choice_any_alternative_loses_header :
+  X690.read (TChoice [TInt; TAny]) [4; 1; 7] = Some (AChoice 1 (AAny [4; 1; 7]), [])
+  /\ decode BER (Some (TChoice [TInt; TAny])) [4; 1; 7] = Ok (DV (TChoice [TInt; TAny]) (VChoice 1 (VAny [7])), [])
+  /\ decode BER (Some (TSeq [(Opt, TInt); (Req, TAny)])) [48; 3; 4; 1; 7]
+     = Ok (DV (TSeq [(Opt, TInt); (Req, TAny)]) (VRec [None; Some (VAny [4; 1; 7])]), []).
+Proof. vm_compute. repeat split. Qed.
+
 Print Assumptions split_ident_dec_ident.
 Print Assumptions split_length_dec_len.
 Print Assumptions parse_one_shape.
